@@ -3690,6 +3690,10 @@ class CacheDataset(Dataset):
                 item = item + len(self)
                 if item < 0:
                     raise IndexError(_item)
+            # Slices and shuffles index with numpy integers. They have to
+            # address the same cache entry as a python int (diskcache would
+            # store them under different keys).
+            item = int(item)
             try:
                 return self._cache[item]
             except KeyError:
